@@ -42,8 +42,9 @@ type vfC02RR struct {
 }
 
 var (
-	vfC02V4 = []string{"203.0.113.1", "203.0.113.2", "203.0.113.3", "192.0.2.99", "100.64.0.9"}
-	vfC02V6 = []string{"2001:db8:aa::1", "2001:db8:aa::2", "2001:db8:bb::3", "fd00::9"}
+	// the unspecified addresses are what rules against DNS rebinding name
+	vfC02V4 = []string{"203.0.113.1", "203.0.113.2", "203.0.113.3", "192.0.2.99", "100.64.0.9", "0.0.0.0"}
+	vfC02V6 = []string{"2001:db8:aa::1", "2001:db8:aa::2", "2001:db8:bb::3", "fd00::9", "::"}
 )
 
 func vfC02DrawAnswer(t *rapid.T, qname string, qtype uint16) (rrs []vfC02RR) {
@@ -165,6 +166,9 @@ type vfC02Conf struct {
 	// query is sent (cache hits must be filtered like fresh answers).
 	CacheOn bool
 	Repeats int
+	// UpRcode is the response code of the upstream answer: a negative answer
+	// may carry the CNAME chain that led to it.
+	UpRcode int
 	// Planted describes the planted offending record, for the evidence.
 	Planted string
 }
@@ -200,6 +204,9 @@ func vfDrawC02Conf(t *rapid.T) (c *vfC02Conf) {
 	c.ClientOff = rapid.IntRange(0, 9).Draw(t, "client_filtering_off") == 0
 	c.WithLog = rapid.IntRange(0, 3).Draw(t, "with_querylog") == 0
 	c.CacheOn = rapid.Bool().Draw(t, "dns_cache")
+	if rapid.IntRange(0, 4).Draw(t, "upstream_negative") == 0 {
+		c.UpRcode = dns.RcodeNameError
+	}
 	c.Repeats = 1
 	if c.CacheOn {
 		c.Repeats = rapid.IntRange(2, 3).Draw(t, "repeats")
@@ -279,7 +286,7 @@ func (c *vfC02Conf) describe() (m map[string]any) {
 		"query": fmt.Sprintf("%s %s", c.Qname, dns.Type(c.Qtype)), "upstream_answer": vfRRStrings(vfC02RRs(c.Answer)),
 		"block_list": c.Block, "allow_list": c.Allow, "custom": c.Custom, "mode": c.Mode, "protection": c.Protection,
 		"filtering": c.FilteringOn, "aaaa_disabled": c.AAAAOff, "client_filtering_off": c.ClientOff,
-		"query_allowlisted_by": c.QueryAllowed,
+		"query_allowlisted_by": c.QueryAllowed, "upstream_rcode": dns.RcodeToString[c.UpRcode],
 	}
 }
 
@@ -431,6 +438,7 @@ func TestVFC02Response(t *testing.T) {
 			resp = (&dns.Msg{}).SetReply(req)
 			resp.RecursionAvailable = true
 			resp.Answer = vfC02RRs(c.Answer)
+			resp.Rcode = c.UpRcode
 
 			return resp
 		}
@@ -549,7 +557,7 @@ func vfC02CheckOne(t *rapid.T, c *vfC02Conf, q *vfC01Query, o *vfOutcome, blocke
 			// ipv6hint values, AAAA disabled or not
 			fail("answer not delivered unchanged: got %q want %q", got, exp)
 		}
-		if o.Res.Rcode != dns.RcodeSuccess || len(o.Res.Question) != 1 || o.Res.Question[0] != o.Req.Question[0] {
+		if o.Res.Rcode != c.UpRcode || len(o.Res.Question) != 1 || o.Res.Question[0] != o.Req.Question[0] {
 			fail("rcode/question changed")
 		}
 	}
@@ -568,6 +576,13 @@ func vfCheckBlockedResponse(cc *vfC01Conf, q *vfC01Query, o *vfOutcome, upstream
 		up[rs] = true
 	}
 	for _, rr := range o.Res.Answer {
+		// the unspecified address is also what the blocking modes answer with:
+		// such a record has just been judged to be the synthetic one
+		if a, ok := rr.(*dns.A); ok && a.A.IsUnspecified() {
+			continue
+		} else if a6, ok6 := rr.(*dns.AAAA); ok6 && a6.AAAA.IsUnspecified() {
+			continue
+		}
 		if up[vfDropTTL([]dns.RR{rr})[0]] {
 			return fmt.Errorf("upstream record delivered in a blocked reply: %s", rr)
 		}
